@@ -33,6 +33,9 @@
 /// cbindgen:ignore
 pub mod earley;
 
+#[cfg(llg_verif)]
+pub mod verif_hooks;
+
 mod hashcons;
 mod matcher;
 mod tokenparser;
